@@ -622,7 +622,7 @@ fn gen_case(r: &mut Rng, idx: u64) -> Vec<String> {
                     p.push(format!("{}:c{} p", kind(r), d + 1));
                 }
                 p.push(format!("{}:s p", kind(r)));
-                let o = vec![format!("set\t{}\t{}", a, v), format!("call\t0\t{}", a), format!("set\t{}\t{}", b, v + 1), format!("call\t0\t{}", a),
+                let o = vec![format!("set\t{}\t{}", a, v), format!("set\t{}\t0", b), format!("call\t0\t{}", a), format!("set\t{}\t{}", b, v + 1), format!("call\t0\t{}", a),
                              "gc".to_string(), format!("call\t0\t{}", a)];
                 keyed.insert(a, v);
                 keyed.insert(b, v + 1);
